@@ -145,6 +145,20 @@ def check_roundtrip(case, ctx):
         ctx.cls("multi-descriptor")
     if any(gen.has_nonnone(m) for m in seq):
         ctx.nontriv()
+    ign = case.get("ignore")
+    if ign:
+        # the comparison setting (which fields == and hash() skip) is no business of the stream format
+        from flow.record import ignore_fields_for_comparison
+
+        names = [n for m in seq if m.kind == "plain" for _, n in m.p["desc"][1]]
+        ignored = ["_generated"] if ign == "generated" or not names else [names[0], "_source"]
+        ctx.cls("written-under-ignored-fields:" + ign)
+        with ignore_fields_for_comparison(ignored):
+            return _roundtrip_and_compare(records, transport, ctx)
+    return _roundtrip_and_compare(records, transport, ctx)
+
+
+def _roundtrip_and_compare(records, transport, ctx):
     if transport == "bytesio":
         res = impl(roundtrip_bytesio, records)
         if not res.ok:
@@ -169,6 +183,7 @@ def case_strategy(types=None):
         {
             "seq": gen.sequence_spec(types=types),
             "transport": st.sampled_from(["bytesio", "bytesio", "path", "gz"]),
+            "ignore": st.sampled_from([None, None, None, "generated", "first-field"]),
         }
     )
 
